@@ -17,6 +17,10 @@ REPLAYS = ROOT / "replays"
 WORK = ROOT / ".work"
 # the tree under test: /repo, unless a development run points the harness at a scratch worktree
 REPO = Path(os.environ.get("HIVE_REPO", "/repo"))
+if REPO.resolve() != Path("/repo"):
+    # development runs against a scratch tree (tools/seedtest.sh) never touch the committed evidence / replays
+    EVIDENCE = Path("/tmp/hv-scratch") / "evidence"
+    REPLAYS = Path("/tmp/hv-scratch") / "replays"
 FINDINGS_FILE = ROOT / "known_findings.json"
 
 EXIT_OK, EXIT_VIOLATION, EXIT_MACHINERY = 0, 1, 2
